@@ -245,6 +245,11 @@ Taint(t) ==
   /\ "Taint" \in Acts /\ Step /\ t \notin taint
   /\ taint' = taint \cup {t} /\ last' = [kind |-> "taint", t |-> t]
   /\ UNCHANGED <<src, files, alias, platform, ws, ext, results, blobs>>
+\* `grog taint //...`: a pattern taints every target it matches
+TaintAll ==
+  /\ "Taint" \in Acts /\ Step /\ taint # Targets
+  /\ taint' = Targets /\ last' = [kind |-> "taint", t |-> "ALL"]
+  /\ UNCHANGED <<src, files, alias, platform, ws, ext, results, blobs>>
 \* the workspace is checked out at another absolute location, the cache is carried over: nothing of the abstract state changes
 Relocate ==
   /\ "Relocate" \in Acts /\ Step /\ last.kind # "relocate"
@@ -291,7 +296,7 @@ Next ==
        \/ EditShift(t) \/ EditSwap(t) \/ EditFingerprint(t) \/ EditOutputs(t) \/ ToggleNoCache(t) \/ Taint(t) \/ BreakExt(t) \/ DropBlob(t)
        \/ \E how \in {"delete", "modify", "parent", "stale", "notdir"} : Perturb(t, how)
   \/ \E x \in Aliases, t \in Targets : Retarget(x, t)
-  \/ ChangePlatform \/ Relocate
+  \/ ChangePlatform \/ Relocate \/ TaintAll
   \/ \E s \in SelMenu, on \in BOOLEAN, m \in Modes : Build(s, on, m)
 
 Spec == Init /\ [][Next]_vars
